@@ -138,6 +138,7 @@ type verdict struct {
 	AtInstant   []rowState       `json:"rows_at_the_instant"`
 	Seen        []string         `json:"seen_at_the_instant,omitempty"`
 	AfterRun2   []rowState       `json:"rows_after_run2"`
+	Finishes1   int              `json:"finish_messages_run1"`
 	Served1     []string         `json:"served_run1"`
 	Served2     []string         `json:"served_run2"`
 	Records1    int              `json:"complete_records_at_the_instant"`
@@ -377,6 +378,13 @@ func runHistory(cs caseSpec, profile bool, keepDir string) (v verdict) {
 		hkit.EngineError("reading lq.db after the second run: %v", err)
 	}
 	v.AfterRun2 = rowStates(o, rows2)
+	finishes1 := 0
+	for _, e := range r1.Events {
+		if strings.Contains(e, " finish-message ") {
+			finishes1++
+		}
+	}
+	v.Finishes1 = finishes1
 	judge(&v, cs.Quick, o, log1, log2, rows1, rows2, seen1, files1)
 	return v
 }
